@@ -69,6 +69,10 @@ CHECKS = {
              text="Exhaustive over the bounded grammar universe: all 1-token templates over a 51-token universe and all 2-token templates over a 16-token core (thorough: the whole universe) x 234 contexts (missing / falsy / plain values and values, loop items carrying template syntax: variables, optionals, includes, filters, blocks, loop specials), with includes nested two deep; the expected text and warnings of every case are computed by TLC from the specification and compared with the real renderer's output in non-strict and strict mode.",
              note="Trusted: TLC/SANY, the concretisation of tokens / pieces to strings (checked by the fact that all delimiter-free cases agree), Python's str methods for the filters. Defaults are delimiter-free (grammar limit). Blocks are non-nested as in the statement.",
              ref="DESIGN.md section 4 C12"),
+ "C02": dict(technique="TLA+ transcription of Python's semantics on the discrete fragment (EvalSem.tla) evaluated by TLC on every enumerated program (MC_EvalSem, sharded ndJsonSerialize), validated against CPython's eval in the same run (spec self-check), then replayed into the real Mitochondria on three pathways and judged by TLC (Trace_EvalSem.tla)",
+             text="Exhaustive over the bounded program space (about 8 600 programs: all depth-1 forms over 10 leaves incl. strings containing 'True' and digit strings, comparison chains, conditionals, keyword calls, and all forms over a 16-element second level, each also in minimal-parentheses form): TLC computes the value Python assigns (typed: int / bool / str / list / tuple / integral float / raises), the engine must fail where Python raises and return an equal value where it succeeds, on the math, logic (bool-coerced) and auto pathways.",
+             note="Trusted: TLC/SANY; the transcription is validated against CPython on every enumerated program at run time (a disagreement is reported as a machinery failure, never against the engine). Floats, transcendental functions and integers beyond 10^6 are outside the specification (DESIGN.md section 10) and skipped.",
+             ref="DESIGN.md section 4 C02"),
 }
 NOT_APPLICABLE = []
 
